@@ -98,3 +98,66 @@ fn reenable_after_subsource_disable_gives_hooks_once() {
     w.el.dispatch(Duration::ZERO, &mut log).unwrap();
     assert_eq!(w.stats.borrow().before_sleep, before + 1, "exactly one before_sleep per dispatch after re-enable");
 }
+
+/// a composite lifecycle source with three sub-tokens: a synthetic event returned by before_sleep for the THIRD
+/// sub-token reaches process_events with exactly that token (and its readiness), in the same dispatch, without
+/// blocking; a real event on the SECOND sub-token is what before_handle_events' iterator shows, with that token
+#[test]
+fn synthetic_and_real_events_keep_their_sub_tokens() {
+    #[derive(Default)]
+    struct Seen { toks: Vec<Token>, synth_got: Vec<(Token, Readiness)>, iter_saw: Vec<Token>, real_got: Vec<Token> }
+    struct Tri { a: PingSource, b: PingSource, toks: Vec<Token>, fire: Rc<Cell<bool>>, seen: Rc<RefCell<Seen>> }
+    impl EventSource for Tri {
+        type Event = ();
+        type Metadata = ();
+        type Ret = ();
+        type Error = Box<dyn std::error::Error + Sync + Send>;
+        const NEEDS_EXTRA_LIFECYCLE_EVENTS: bool = true;
+        fn process_events<F>(&mut self, r: Readiness, t: Token, _cb: F) -> Result<PostAction, Self::Error> where F: FnMut((), &mut ()) {
+            if self.toks.len() == 3 && t == self.toks[2] { self.seen.borrow_mut().synth_got.push((t, r)); return Ok(PostAction::Continue); }
+            let seen = self.seen.clone();
+            self.a.process_events(r, t, |_, _| seen.borrow_mut().real_got.push(t))?;
+            self.b.process_events(r, t, |_, _| seen.borrow_mut().real_got.push(t))?;
+            Ok(PostAction::Continue)
+        }
+        fn register(&mut self, p: &mut Poll, f: &mut TokenFactory) -> calloop::Result<()> {
+            // the sub-sources take the first two tokens of the factory, the third is kept for synthetic events
+            self.a.register(p, f)?;
+            self.b.register(p, f)?;
+            let t2 = f.token();
+            self.toks = vec![t2, t2, t2];
+            self.seen.borrow_mut().toks = self.toks.clone();
+            Ok(())
+        }
+        fn reregister(&mut self, p: &mut Poll, f: &mut TokenFactory) -> calloop::Result<()> { self.a.reregister(p, f)?; self.b.reregister(p, f)?; let t2 = f.token(); self.toks = vec![t2, t2, t2]; Ok(()) }
+        fn unregister(&mut self, p: &mut Poll) -> calloop::Result<()> { self.a.unregister(p)?; self.b.unregister(p) }
+        fn before_sleep(&mut self) -> calloop::Result<Option<(Readiness, Token)>> {
+            Ok(if self.fire.replace(false) { Some((Readiness { readable: false, writable: true, error: false }, self.toks[2])) } else { None })
+        }
+        fn before_handle_events(&mut self, events: EventIterator<'_>) { for (_, t) in events { self.seen.borrow_mut().iter_saw.push(t); } }
+    }
+    let mut el: EventLoop<()> = EventLoop::try_new().unwrap();
+    let (_pa, a) = make_ping().unwrap();
+    let (pb, b) = make_ping().unwrap();
+    let (fire, seen) = (Rc::new(Cell::new(false)), Rc::new(RefCell::new(Seen::default())));
+    el.handle().insert_source(Tri { a, b, toks: vec![], fire: fire.clone(), seen: seen.clone() }, |_, _, _| {}).unwrap();
+    // (1) synthetic event for the third sub-token: same dispatch, no blocking, right token and readiness
+    fire.set(true);
+    let t = std::time::Instant::now();
+    el.dispatch(Duration::from_secs(2), &mut ()).unwrap();
+    assert!(t.elapsed() < Duration::from_secs(1), "a synthetic event did not force a non-blocking wait");
+    {
+        let s = seen.borrow();
+        assert_eq!(s.synth_got.len(), 1, "the synthetic event was not delivered to the sub-source whose token it carries (real callbacks: {:?})", s.real_got);
+        assert!(s.synth_got[0].0 == s.toks[2] && s.synth_got[0].1.writable && !s.synth_got[0].1.readable);
+        assert!(s.iter_saw.is_empty(), "the iterator of before_handle_events showed a synthetic event");
+        assert!(s.real_got.is_empty(), "a sub-source fired for the synthetic event of another one");
+    }
+    // (2) a real event on the second sub-source: the iterator shows it, with the token process_events then gets
+    pb.ping();
+    el.dispatch(Duration::from_millis(200), &mut ()).unwrap();
+    let s = seen.borrow();
+    assert_eq!(s.real_got.len(), 1);
+    assert_eq!(s.iter_saw.len(), 1, "before_handle_events did not see the real event of the second sub-source");
+    assert!(s.iter_saw[0] == s.real_got[0]);
+}
